@@ -14,6 +14,7 @@ func init() {
 		NotDecided:  "TODO",
 		Assumptions: trustedBase,
 		Run: func(m *Model, s *Sink) {
+			m.RunNoReadPastEnd(s, "R-TOKPOS") // an unterminated string or comment does not push the position past the input
 			m.RunLexInput(s, "R-LEXINPUT")
 			m.RunPrefixKW(s, "R-PREFIXKW") // the tokens tile the input: a directive keyword ends where the table says it ends
 			m.RunOrderings(s, "R-ORDERINGS")
